@@ -237,9 +237,45 @@ def def_time(rng, variant):
     return b.prog('def_time_reads')
 
 
+def closure_in_branch(rng, variant):
+    """a local function is (re)defined at the END of a branch / loop body of varying length (so the join behind it is first
+    reached through a shorter path), a later block assigns the captured variable, which is then read only through the closure"""
+    b = _B(rng)
+    _head(b)
+    b.features.update(['nested_def', 'closure_in_branch'])
+    where = variant % 4            # 0 then-branch, 1 else-branch, 2 for body, 3 while body
+    length = (variant // 4) % 6    # statements in front of the def inside the branch
+    later = (variant // 24) % 3    # 0 if, 1 for, 2 while
+    b.e(1, 'def g():'); b.e(2, 'return tr(%d, 0)' % b.slot())
+
+    def long_part(ind):
+        for q in range(length):
+            v = 'yzw'[q % 3]
+            b.e(ind, '%s = tr(%d, %s)' % (v, b.slot(), v))
+        b.e(ind, 'def g():'); b.e(ind + 1, 'return tr(%d, x)' % b.slot())
+    if where == 0:
+        b.e(1, 'if d():'); long_part(2); b.e(1, 'else:'); b.e(2, 'pass')
+    elif where == 1:
+        b.e(1, 'if d():'); b.e(2, 'pass'); b.e(1, 'else:'); long_part(2)
+    elif where == 2:
+        b.e(1, 'for i in n():'); long_part(2)
+    else:
+        b.e(1, 'while d():'); long_part(2)
+    if later == 0:
+        b.e(1, 'if d():'); b.e(2, 'x = tr(%d, 7)' % b.slot())
+    elif later == 1:
+        b.e(1, 'for j in n():'); b.e(2, 'x = tr(%d, j)' % b.slot())
+    else:
+        b.e(1, 'while d():'); b.e(2, 'x = x + tr(%d, 1)' % b.slot())
+    b.e(1, 'return tr(0, g())')
+    p = b.prog('closure_in_branch')
+    p.decisions = [[1] * 10, [0, 1, 1, 0, 1, 0, 0, 0], [1, 1, 0, 1, 0, 1, 0, 0], [2, 1, 1, 1, 0, 0, 0, 0], [1, 0, 1, 0, 0, 0], [0] * 6]
+    return p
+
+
 FAMILIES = [('zero_trip_for', zero_trip, 30), ('closure', closure, 60), ('lambda_later', lambda_later, 6),
             ('closure_binds_local', closure_binds, 12), ('misc', misc, 18),
-            ('def_time_reads', def_time, 27)]
+            ('def_time_reads', def_time, 27), ('closure_in_branch', closure_in_branch, 72)]
 
 
 def scenario_programs(rng, scale=1):
